@@ -7,8 +7,9 @@ Theorems: coq/C09/Properties_C09.v.
   Part 2 (coq/C09/ConstPtr.v, a machine for pointers and references with one const test per executor):
   under the policy that makes all 31 tests const slots are immutable, const pointers are never
   re-seated, the address of a const object needs a pointer to const; every test is necessary; the
-  13 x 12 matrix of the property is refused cell by cell. The policy of the pinned code (`mech`)
-  lacks 18 tests: `_refuted` theorems, confirmed here on the real binary and recorded as known findings.
+  13 x 12 matrix of the property is refused cell by cell. The policy of the current code (`mech`, after the
+  repairs c8a1652..a842ca6) makes 22 of the 31 tests: positive theorems for the nine repaired ones, `_refuted`
+  theorems for the nine still missing, confirmed here on the real binary and recorded as known findings.
 Tie (every run, against /repo's current sources built by common.build_impl):
   * the full matrix as hand-written Cb templates (gen_c09.cell), const version and control twin,
     against the extracted verdicts of spec and mech;
@@ -40,7 +41,8 @@ META = {
             "pointee-const / pointer-const flags, 31 check sites mirroring the executors of the implementation): with every test in place const "
             "slots never change, `T* const` pointers are never re-seated and the address of a const object is only given to pointers to const, for "
             "every script; each test is shown necessary; all expressible cells of the object-kind x mutation-path matrix are refused. The policy of "
-            "the pinned code lacks 18 of the 31 tests (refuted with witnesses; 64 of 111 matrix cells are not refused). On every run the matrix "
+            "the current code (after six repairs found by this check) makes 22 of the 31 tests: 102 of 111 matrix cells are refused (proved for the model, "
+            "confirmed on main); the 9 missing tests are refuted with witnesses. On every run the matrix "
             "(hand-written Cb templates with a control twin per cell), one witness per check site, random machine scripts and random CbCore programs "
             "are executed on /repo's main and compared with the extracted models; the missing tests are reported as known findings.",
     "note": "Trusted: Coq kernel incl. vm_compute (finite sweeps: 156 cells, 31 sites), no axioms (Print Assumptions closed); extraction (ExtrOcamlBasic, "
